@@ -460,6 +460,24 @@ def run(ctx: Any, prog: Program) -> None:
         ctx.check('C16.Q2', len(listed) <= 128, db, node, f'{tbl} has {len(listed)} entries; the index shares a byte with a flag bit', func='<module>', text=f'{tbl} fits 7 bits')
         idx = db.global_assign(tbl.replace('_ORDER', '_INDEX'))
         ctx.shape('C16.Q2', ast.unparse(idx) == f'{{val: ind for ind, val in enumerate({tbl})}}', db, idx, f'{tbl.replace("_ORDER", "_INDEX")} must be the enumeration of {tbl}', func='<module>', text=f'{tbl} index table')
+    # string slots: what goes into the dictionary is the field itself (None may become ''), never a substitute taken from another field
+    n_str = 0
+    for sub_ in ast.walk(db.tree):
+        if not (isinstance(sub_, ast.Call) and dotted(sub_.func) in ('str_dict', 'dic') and len(sub_.args) == 1):
+            continue
+        fn_name = next((a.name for a in _ancestors(db, sub_) if isinstance(a, (ast.FunctionDef, ast.AsyncFunctionDef))), '<module>')
+        if fn_name not in ('kv_serialise', 'iodef_serialise', 'ent_serialise'):
+            continue
+        a_ = sub_.args[0]
+        n_str += 1
+        if isinstance(a_, ast.BoolOp) and isinstance(a_.op, ast.Or):
+            others = [v for v in a_.values[1:] if not (isinstance(v, ast.Constant) and v.value == '')]
+            ctx.check('C16.Q2', not others, db, sub_, f'`{ast.unparse(sub_)}` stores `{ast.unparse(others[0]) if others else ""}` in place of an empty `{ast.unparse(a_.values[0])}`: the reader hands the substitute back as the '
+                      'field value, so a blank value does not survive the binary format', func=fn_name, text=f'{fn_name}: {ast.unparse(a_.values[0])} written as it is')
+        else:
+            ctx.check('C16.Q2', True, db, sub_, 'field written as it is', func=fn_name, text=f'{fn_name}: {ast.unparse(a_)[:40]} written as it is')
+    if n_str < 7:
+        raise AnalysisError(f'only {n_str} dictionary string writes found in the serialisers (8 confirmed by hand)')
     # the coded value is the stored field itself: <X>_INDEX[obj.field] on the writing side, <X>_ORDER[<int expr>] used as-is on the reading side
     n_idx = 0
     for tblname in ('VALUE_TYPE', 'FILE_TYPE'):
@@ -583,6 +601,36 @@ def run(ctx: Any, prog: Program) -> None:
         label = f'KVDef.export type={kname} name={"set" if dn else "empty"} default={"set" if df else "empty"} desc={"set" if ds else "empty"}'
         ctx.check('C16.Q4', pos is None, fgd, kexp, f'{label}: the line is written as `{" ".join(le.out[:pos + 2] if pos is not None else le.out[:8])}`: a colon directly before the end of the line (or `=`) makes the parser continue the '
                   'list on the next line, swallowing the following definition', func='KVDef.export', text=label)
+    # bare (unquoted) default: allowed only behind a test that confines the text to characters that are safe outside quotes.  The FGD
+    # tokenizer treats '+' as the string-concatenation operator and drops surrounding whitespace, so `int(text)` succeeding is not enough.
+    SAFE_BARE = set('0123456789-.')
+    for w_ in [c for c in ast.walk(kexp) if isinstance(c, ast.Call) and dotted(c.func) == 'file.write' and c.args and isinstance(c.args[0], ast.BinOp) and isinstance(c.args[0].op, ast.Add)
+               and isinstance(c.args[0].left, ast.Constant) and isinstance(c.args[0].right, ast.Name) and '"' not in str(c.args[0].left.value)]:
+        var_ = w_.args[0].right.id
+        guard_ok: Optional[bool] = None
+        why_ = ''
+        cur_ = fgd.parents.get(w_)
+        child_: ast.AST = w_
+        while cur_ is not None and cur_ is not kexp and guard_ok is None:
+            if isinstance(cur_, ast.If) and any(child_ is b or any(child_ is x for x in ast.walk(b)) for b in cur_.body):
+                t_ = cur_.test
+                if isinstance(t_, ast.Call) and dotted(t_.func) == 'all' and t_.args and isinstance(t_.args[0], ast.GeneratorExp):
+                    ge = t_.args[0]
+                    if isinstance(ge.elt, ast.Compare) and isinstance(ge.elt.ops[0], ast.In) and isinstance(ge.elt.comparators[0], ast.Constant) and dotted(ge.generators[0].iter) == var_:
+                        chars = set(str(ge.elt.comparators[0].value))
+                        guard_ok = chars <= SAFE_BARE
+                        why_ = f'allowed characters {sorted(chars - SAFE_BARE)} are not safe outside quotes' if not guard_ok else ''
+            if isinstance(cur_, ast.Try) and any(child_ is b or any(child_ is x for x in ast.walk(b)) for b in cur_.orelse):
+                conv = [c for b in cur_.body for c in ast.walk(b) if isinstance(c, ast.Call) and dotted(c.func) in ('int', 'float') and c.args and dotted(c.args[0]) == var_]
+                if conv:
+                    guard_ok = False
+                    why_ = (f'`{dotted(conv[0].func)}({var_})` succeeding does not confine the text: it also accepts a leading "+" (the FGD string-concatenation token - the exported file no longer parses) and surrounding '
+                            'whitespace or a trailing newline (silently dropped when parsed back)')
+            child_, cur_ = cur_, fgd.parents.get(cur_)
+        if guard_ok is None:
+            ctx.shape('C16.Q4', False, fgd, w_, f'guard of the unquoted write `{ast.unparse(w_)[:50]}` not recognised', func='KVDef.export', text=f'bare slot {var_} guarded')
+        else:
+            ctx.check('C16.Q4', guard_ok, fgd, w_, f'`{ast.unparse(w_)[:50]}` writes `{var_}` without quotes: {why_}', func='KVDef.export', text=f'bare slot {var_} guarded')
     iexp = fgd.func('IODef.export')
     for ds in ('', 'x'):
         le = LineEmit(fgd, ffold, {'self.desc': ds, 'tags': (), 'custom_syntax': True, 'self._type': vt.members['STRING'], 'self._type is ValueTypes.BOOL': False, 'isinstance(self._type, ValueTypes)': True}, raw_slots)
@@ -689,6 +737,8 @@ def run(ctx: Any, prog: Program) -> None:
 
 
 MUTANTS: List[Dict[str, Any]] = [
+    {'id': 'blank_disp_name_replaced_by_key', 'file': '_engine_db.py', 'find': "    file.write(str_dict(kvdef.disp_name))", 'replace': "    file.write(str_dict(kvdef.disp_name or kvdef.name))", 'expect': 'C16.Q2'},
+    {'id': 'bare_default_if_int_parses', 'file': 'fgd.py', 'find': "            if all(x in '0123456789-' for x in default_str):\n                file.write(' : ' + default_str)\n            else:\n                file.write(f' : \"{_fgd_escape(custom_syntax, default_str)}\"')", 'replace': "            try:\n                int(default_str)\n            except ValueError:\n                file.write(f' : \"{_fgd_escape(custom_syntax, default_str)}\"')\n            else:\n                file.write(' : ' + default_str)", 'expect': 'C16.Q4'},
     {'id': 'resource_tags_hoisted', 'file': 'fgd.py', 'find': "                        filename = tok.expect(Token.STRING)\n                        tags = frozenset()\n", 'replace': "                        filename = tok.expect(Token.STRING)\n", 'extra': [{'file': 'fgd.py', 'find': "                resources: list[Resource] = list(entity.resources)\n", 'replace': "                resources: list[Resource] = list(entity.resources)\n                tags = frozenset()\n"}], 'expect': 'C16.Q7'},
     {'id': 'helper_lightcone_skips_default_outer', 'file': '_fgd_helpers.py', 'find': "        if self.color != '_light':\n            return [self.inner, self.outer, self.color]\n", 'replace': "        if self.color != '_light':\n            if self.outer == '_cone':\n                return [self.inner, self.color]\n            return [self.inner, self.outer, self.color]\n", 'expect': 'C16.Q6'},
     {'id': 'helper_line_swaps_key_value', 'file': '_fgd_helpers.py', 'find': "            self.start_key,\n            self.start_value,\n        ]\n        if self.end_key is not None and self.end_value is not None:\n            args += [self.end_key, self.end_value]\n        return args", 'replace': "            self.start_value,\n            self.start_key,\n        ]\n        if self.end_key is not None and self.end_value is not None:\n            args += [self.end_key, self.end_value]\n        return args", 'expect': 'C16.Q6'},
